@@ -49,7 +49,7 @@ pub unsafe extern "C" fn bcmp(a: *const u8, b: *const u8, n: usize) -> i32 {
     0
 }
 
-const RULE: &str = "generated: (request, key) pairs from the completeness generator (small requests, both carriers; every second one drawn until its correct signature has a given shape: leading '00', leading '000', trailing '00', leading 'ff'/'0'); for each, the expected signature (reference model) with ONE character at position p replaced by another of the same class (digit->digit, letter->letter), 'everything from p on wrong' variants, a different replacement character at p, and two-character variants that keep every order-independent digest of the string unchanged (successor at p / predecessor at another place: same byte sum; two unequal characters of one class exchanged: same multiset), and the one-character variants again in upper-case hex (compared among themselves). Observed: the instruction-address trace (rolling hash + step count) of the complete sigv4_validate_request call in a forked child single-stepped with ptrace, under a harness-supplied byte-wise early-exit memcmp/bcmp. The traced refusal is the N-th refusal of its process for a round N per request (10000, 1000, 4096, 100, ...; the preceding ones run untraced in the same process). Every second request is validated with a TRACE-level logger that renders every record, so the formatting code behind the library's trace!/debug! calls is part of the trace. Oracle (metamorphic): for a fixed request and key the trace is identical for every p; the first variant is traced twice and a difference there makes the run inconclusive, never a violation. Non-trivial: a variant that the crate refuses with the signature-mismatch error (it reached the comparison) and whose trace was recorded; distinct by (request digest, position, kind of variant).";
+const RULE: &str = "generated: (request, key) pairs from the completeness generator (small requests, both carriers, with and without a session token; every second one drawn until its correct signature has a given shape: leading '00', leading '000', trailing '00', leading 'ff'/'0'); for each, the expected signature (reference model) with ONE character at position p replaced by another of the same class (digit->digit, letter->letter), 'everything from p on wrong' variants, a different replacement character at p, and two-character variants that keep every order-independent digest of the string unchanged (successor at p / predecessor at another place: same byte sum; two unequal characters of one class exchanged: same multiset), and the one-character variants again in upper-case hex (compared among themselves). Observed: the instruction-address trace (rolling hash + step count) of the complete sigv4_validate_request call in a forked child single-stepped with ptrace, under a harness-supplied byte-wise early-exit memcmp/bcmp. The traced refusal is the N-th refusal of its process for a round N per request (10000, 1000, 4096, 100, ...; the preceding ones run untraced in the same process). Every second request is validated with a TRACE-level logger that renders every record, so the formatting code behind the library's trace!/debug! calls is part of the trace. Oracle (metamorphic): for a fixed request and key the trace is identical for every p; the first variant is traced twice and a difference there makes the run inconclusive, never a violation. Non-trivial: a variant that the crate refuses with the signature-mismatch error (it reached the comparison) and whose trace was recorded; distinct by (request digest, position, kind of variant).";
 
 #[derive(Clone, Copy, Default)]
 struct TraceResult {
@@ -277,6 +277,10 @@ fn targets(seed: u64, n: usize) -> Vec<(Plan, Target)> {
             _ => true,
         };
         if !shape_ok {
+            continue;
+        }
+        // requests with and without a session token alternate (temporary credentials take other paths around the lookup)
+        if (out.len() % 4 == 0) != p.spec.token.is_some() && out.len() % 2 == 0 {
             continue;
         }
         // the crate must accept the correct signature, otherwise wrong ones do not reach the comparison meaningfully
